@@ -47,6 +47,13 @@ CLAIMED = {
         note=TB + "; numpy.linalg.inv is an uninterpreted function (assumed contract); the algebraic laws T(a,a)=I, T(a,b)T(b,a)=I, T(a,c)=T(a,b)T(b,c) follow from the product spec by matrix algebra and are only evaluated numerically in the bounded tier; symbolic tier runs repair_rigid=None, the default is covered by seeded random histories on the real classes.",
         technique="contract-based deductive verification of a representation invariant (ghost abstract view, per-operation preservation from arbitrary invariant states on the mirrored source, symbolic matrices, z3) + bounded random histories on the real classes",
     ),
+    "C13": dict(
+        category="proof",
+        text="Run-length codecs against the abstract view dec(runs)[p] (value of the run containing position p, p a universally quantified integer): merge_brle_lengths, rle_to_brle (incl. its ValueError condition), merge_rle_lengths, brle_logical_not, brle_reverse, rle_reverse, brle_strip, rle_strip, brle_to_rle, brle_length/rle_length are proved lossless for EVERY non-negative integer count at each fixed run count 1..5 (bounded shape), split_long_brle/rle_lengths for uint8 with every count below 3*255 (case split on the quotient). The lazy index maps (FlippedEncoding, TransposedEncoding, ShapedEncoding, FlattenedEncoding): _to_base_indices equals numpy's flip / transpose / reshape index arithmetic for every integer index inside the shape and _from_base_indices is its inverse (symbolic indices, concrete small shapes incl. 3-cycles). ops.indices_to_points/points_to_indices are mutually inverse and voxel Transform.transform_points = M.i, unit_volume = det for every real axis-aligned transform (proof, unbounded); inverse_transform_points/rounding in the thorough tier. Bounded tier: every boolean array of shapes (5,),(2,3),(2,2,2) and integer arrays over {0,1,2} through Dense/Sparse/RLE/BRLE and every flip/transpose/flatten/reshape view, 11 reads each against the dense numpy array; every boolean sequence up to length 9 and ternary sequence up to length 6 through every codec, gather (array and list indices) and mask function; runs at max-1, max, max+1, 2max+1 for every count dtype. Nine defects found this way were repaired (fix: commits), four are recorded known findings.",
+        design_ref="DESIGN.md §4 C13",
+        note=TB + "; generator-based functions (rle_mask, brle_mask, sorted_*_gather_1d) and dense<->run-length converters are covered by the exhaustive bounded tier only; run counts 1..5 are a stated bound for the symbolic codecs.",
+        technique="contract-based deductive verification (symbolic execution of the unmodified source over integer run lists and index arrays, position-wise decode spec, z3 LIA) + exhaustive small-scope contract evaluation on the real classes",
+    ),
     "C19": dict(
         category="proof",
         text="Every obligation generated from the current source of trimesh/transformations.py (rotation_matrix, quaternion_*, euler_* for all 24 conventions, compose/decompose, transform_points, planar/scale/translate helpers) is discharged by z3/cvc5 for all real inputs: orthonormality, det=+1, round trips, representation agreement, fixed points. Fixed-size matrices, so no bound on inputs.",
